@@ -22,7 +22,7 @@ NPTS = 25
 
 
 def floors(tier):
-    return {"points_checked": 400, "points_generic": 200, "__nontrivial__": 40}
+    return {"points_checked": 400, "points_generic": 200, "points_passed_as_non_contiguous_view": 300, "__nontrivial__": 40}
 
 
 def cases(tier, seed):
@@ -96,6 +96,25 @@ def run(spec):
             continue
         pts.append(x)
     answers = None
+    layout = ("contiguous", "column_of_a_matrix", "every_second_element", "reversed_view")[(spec["seed"] // 2) % 4]
+    if not reuse and pts and layout != "contiguous":
+        # the point is handed over as a non-contiguous 1-D view (a column of a C-ordered sample matrix, a strided slice):
+        # same values, other memory layout
+        answers = []
+        M = np.array(pts)  # (npts, n), C order
+        for k, x in enumerate(pts):
+            if layout == "column_of_a_matrix":
+                v = np.array(M.T, order="C")[:, k]  # column k of an (n, npts) C-ordered matrix: stride npts*8 bytes
+            elif layout == "every_second_element":
+                buf = np.full(2 * n, 123.456)
+                buf[::2] = x
+                v = buf[::2]
+            else:
+                v = np.array(x[::-1], copy=True)[::-1]
+            fx = f(v)
+            gx = np.array(g(v), copy=True)
+            answers.append((fx, gx))
+            out.count("points_passed_as_non_contiguous_view" if (n > 1 and not v.flags["C_CONTIGUOUS"]) else "points_passed_as_view_of_trivial_layout")
     if reuse and pts:
         # first pass: nothing but the user's own calls, all through the same array object
         buf = np.empty(n)
